@@ -306,4 +306,24 @@ def handleConfigurationFixed (env : Env) (st : State) (req : Req) : Result :=
             let r2 := reload env 2 req.gate d2 r1.engine r1.mid
             ⟨statusOf req 422, .reload, d2, r2.engine, r2.mid⟩
 
+/-- `/apply_flows` on a tree carrying the proposed `SaveMetricsConfig` change only (still no backup:
+    F08b is not addressed by the proposed diff). Used by `lvdriver_c08 run-fixed`. -/
+def handleApplyFlowsFixed (env : Env) (st : State) (req : Req) : Result :=
+  match req.body with
+  | .badJson => ⟨statusOf req 400, .decode, st.disk, st.engine, []⟩
+  | .null => ⟨statusOf req 400, .nodata, st.disk, st.engine, []⟩
+  | .payload items =>
+    match parse items with
+    | none => ⟨statusOf req 400, .parse, st.disk, st.engine, []⟩
+    | some parsed =>
+      let c := cleanAll env st.disk
+      if !c.2 then ⟨statusOf req 500, .cleanup, c.1, st.engine, []⟩
+      else
+        let s := saveAllFixed env c.1 parsed
+        if !s.2 then ⟨statusOf req 500, .save, s.1, st.engine, []⟩
+        else
+          let r1 := reload env 1 req.gate s.1 st.engine []
+          if r1.ok then ⟨statusOf req 200, .ok, s.1, r1.engine, r1.mid⟩
+          else ⟨statusOf req 422, .reload, s.1, r1.engine, r1.mid⟩
+
 end LunarVerif.C08
